@@ -323,11 +323,48 @@ def tags_diff(ts1, ts2, what):
     return None
 
 
+def _strict_eq(x, y):
+    """Equal and of the same type (0 is not None, 1 is not True, 1 is not 1.0)."""
+    return type(x) is type(y) and x == y
+
+
+def cond_diff(c1, c2):
+    """None when every field of the classical-control condition c2 equals that of c1, else a reason."""
+    if type(c1) is not type(c2):
+        return f"condition {c1!r} became {c2!r}"
+    if isinstance(c1, cirq.KeyCondition):
+        ok = c1.key == c2.key and tuple(c1.key.path) == tuple(c2.key.path) and _strict_eq(c1.index, c2.index)
+    elif isinstance(c1, cirq.BitMaskKeyCondition):
+        ok = (c1.key == c2.key and tuple(c1.key.path) == tuple(c2.key.path)
+              and all(_strict_eq(getattr(c1, f), getattr(c2, f))
+                      for f in ("index", "target_value", "equal_target", "bitmask")))
+    elif isinstance(c1, cirq.SympyCondition):
+        ok = expr_close(c1.expr, c2.expr)
+        if ok and not c1.expr.atoms(sympy.Float):
+            ok = sympy.srepr(c1.expr) == sympy.srepr(c2.expr)      # nothing to round: exact structure
+    else:
+        ok = c1 == c2
+    return None if ok else f"condition {c1!r} became {c2!r}"
+
+
+def conds_diff(cs1, cs2):
+    """Conditions of one operation form a conjunction: compare as multisets with the strict comparison."""
+    cs1, rest = list(cs1), list(cs2)
+    if len(cs1) != len(rest):
+        return f"classical controls {cs1!r} became {rest!r}"
+    for c in cs1:
+        hit = next((i for i, d in enumerate(rest) if cond_diff(c, d) is None), None)
+        if hit is None:
+            return f"classical controls {cs1!r} became {list(cs2)!r}"
+        rest.pop(hit)
+    return None
+
+
 def op_diff(o1, o2):
     """None when o2 is an acceptable image of o1, else (kind, reason)."""
     try:
         # fast path; not for CircuitOperations: FrozenCircuit/Moment equality ignores moment tags
-        if (o1 == o2 and list(o1.tags) == list(o2.tags)
+        if (o1 == o2 and list(o1.tags) == list(o2.tags) and not o1.untagged.classical_controls
                 and not isinstance(o1.untagged.without_classical_controls().untagged, cirq.CircuitOperation)):
             return None
     except Exception:
@@ -338,8 +375,9 @@ def op_diff(o1, o2):
     if d:
         return ("tags", d)
     u1, u2 = o1.untagged, o2.untagged
-    if u1.classical_controls != u2.classical_controls:
-        return ("controls", f"classical controls {set(u1.classical_controls)!r} became {set(u2.classical_controls)!r}")
+    d = conds_diff(u1.classical_controls, u2.classical_controls)
+    if d:
+        return ("controls", d)
     b1, b2 = u1.without_classical_controls(), u2.without_classical_controls()
     d = tags_diff(b1.tags, b2.tags, f"inner op on {o1.qubits}")
     if d:
@@ -360,8 +398,10 @@ def circuit_op_diff(c1, c2):
     d = circuit_diff(c1.circuit, c2.circuit)
     if d:
         return (d[0], "in sub-circuit: " + d[1])
-    for attr in ("repetitions", "qubit_map", "measurement_key_map", "repetition_ids", "use_repetition_ids",
-                 "repeat_until"):
+    r1, r2 = c1.repeat_until, c2.repeat_until
+    if (r1 is None) != (r2 is None) or (r1 is not None and cond_diff(r1, r2)):
+        return ("circuit_op", f"CircuitOperation.repeat_until {r1!r} became {r2!r}")
+    for attr in ("repetitions", "qubit_map", "measurement_key_map", "repetition_ids", "use_repetition_ids"):
         x, y = getattr(c1, attr), getattr(c2, attr)
         if attr == "repetition_ids":
             x = None if x is None else list(x)
@@ -1052,6 +1092,104 @@ def make_decor_stage(seed):
 
     return CaseStage("prog_decor", cases, run,
                      describe=lambda c: [c, V["letters"][c[0]]["name"], V["letters"][c[1]]["name"]])
+
+
+_CONDS = None
+
+
+def conditions():
+    """Every field of every condition kind at default, falsy-but-non-default and boundary values."""
+    global _CONDS
+    if _CONDS is not None:
+        return _CONDS
+    m, k, j = sympy.Symbol("m"), sympy.Symbol("k"), sympy.Symbol("j")
+    A, B = sympy.IndexedBase("m"), sympy.IndexedBase("k")
+    C = []          # (condition, flag) flag: None | "rej" | finding kind
+    for bm, tv, eq, ix in itertools.product((None, 0, 1, 13), (0, 1, 9), (False, True), (-1, 0, 1)):
+        C.append((cirq.BitMaskKeyCondition("m", index=ix, target_value=tv, equal_target=eq, bitmask=bm), None))
+    C.append((cirq.BitMaskKeyCondition.create_equal_mask(cirq.MeasurementKey("k"), 0), None))
+    C.append((cirq.BitMaskKeyCondition.create_not_equal_mask(cirq.MeasurementKey("k"), 0, index=0), None))
+    C.append((cirq.BitMaskKeyCondition(cirq.MeasurementKey("m", path=("p",)), bitmask=0, index=0), None))
+    C.append((cirq.BitMaskKeyCondition("m", bitmask=2 ** 20 + 1, target_value=2 ** 20), None))
+    for ix in (-1, 0, 1):
+        C.append((cirq.KeyCondition(cirq.MeasurementKey("m"), ix), None))
+    for ix in (-1, 0):
+        C.append((cirq.KeyCondition(cirq.MeasurementKey("m", path=("p", "q")), ix), None))
+    C.append((cirq.KeyCondition(cirq.MeasurementKey("k")), None))
+    exprs = [
+        sympy.Eq(m, 1), sympy.Eq(m, 0), sympy.Ne(m, 0), sympy.Ne(m, 1), sympy.Gt(m, 1), sympy.Gt(m, 0), sympy.Ge(m, 1),
+        sympy.Lt(m, 3), sympy.Lt(m, 0), sympy.Le(m, 0), sympy.Eq(m, -1), sympy.Eq(m, 0.5), m > 0.1, sympy.Eq(m, k),
+        sympy.Ne(m, k + 1), m + k > 1, 2 * m < 3, m * k,
+        sympy.And(m > 0, k < 2), sympy.Or(sympy.Eq(m, 1), sympy.Ne(k, 0)), sympy.Not(sympy.And(m > 0, k < 2)),
+        sympy.Not(sympy.Or(m > 0, sympy.Eq(k, 0))), sympy.Xor(m > 0, k > 0),
+        sympy.And(sympy.Eq(m, 1), sympy.Eq(k, 1), sympy.Eq(j, 0)), sympy.Or(sympy.And(m > 0, k > 0), sympy.Eq(j, 0)),
+        sympy.Xor(A[0], A[1]), sympy.Xor(A[0], B[1]), sympy.Xor(A[0], A[1], A[2]), A[0], A[1], A[1, 0],
+        sympy.Eq(A[0], 1), sympy.Eq(A[0], 0), sympy.And(sympy.Eq(A[0], 1), sympy.Ne(A[1], 1)),
+        sympy.Or(sympy.Eq(A[0], 0), sympy.Eq(B[0], 0)), sympy.Not(sympy.Xor(sympy.Eq(A[0], 1), sympy.Eq(A[1], 1))),
+    ]
+    C += [(cirq.SympyCondition(e), None) for e in exprs]
+    C.append((cirq.SympyCondition(sympy.true), "rej"))      # documented: unrecognized sympy expression type
+    C.append((cirq.SympyCondition(m), "sympy_condition_bare_symbol"))
+    _CONDS = C
+    return C
+
+
+def make_condition_stage():
+    """Classical-control conditions: every condition as the only control of a gate op / a CircuitOperation, next to
+    partner conditions on one op, as repeat_until, and every ordered pair of conditions in one circuit."""
+    C = conditions()
+    n = len(C)
+    plain = [i for i in range(n) if C[i][1] is None]
+    cases = [("single", i, 0) for i in plain] + [("pair", i, j) for i in plain for j in plain]
+    cases += [("single", i, 0) for i in range(n) if C[i][1] is not None]
+    q0, q1, q2 = SLOTS[0][0], SLOTS[0][1], SLOTS[1][0]
+    sub = cirq.FrozenCircuit(cirq.measure(q0, key="m"), cirq.measure(q1, key="k"), cirq.measure(q2, key="j"), cirq.X(q0))
+    partners = [cirq.KeyCondition(cirq.MeasurementKey("k")),
+                cirq.BitMaskKeyCondition("j", bitmask=0, target_value=0, equal_target=True, index=0),
+                cirq.SympyCondition(sympy.Eq(sympy.Symbol("j"), 0))]
+    M = cirq.Moment
+
+    def run(case):
+        kind, i, j = case
+        c, flag = C[i]
+        if kind == "pair":
+            d = C[j][0]
+            circuits = [("two controlled ops", lambda: cirq.Circuit([M(cirq.X(q0).with_classical_controls(c)),
+                                                                     M(cirq.X(q0).with_classical_controls(d)),
+                                                                     M(cirq.X(q0).with_classical_controls(c))]))]
+            if cond_diff(c, d) is not None and c != d:
+                circuits.append(("two conditions on one op",
+                                 lambda: cirq.Circuit(cirq.CZ(q0, q1).with_classical_controls(c, d))))
+            return _run_circuits(circuits, True)
+        circuits = [
+            ("only control", lambda: cirq.Circuit(cirq.X(q0).with_classical_controls(c))),
+            ("control of a tagged 2q op", lambda: cirq.Circuit(
+                cirq.CZ(q0, q1).with_tags(cg.CalibrationTag("x")).with_classical_controls(c), cirq.CZ(q0, q1))),
+            ("control of a CircuitOperation", lambda: cirq.Circuit(
+                cirq.CircuitOperation(sub, repetitions=2).with_classical_controls(c))),
+        ]
+        for pn, prt in enumerate(partners):
+            circuits.append((f"with partner {pn}", lambda prt=prt: cirq.Circuit(cirq.X(q0).with_classical_controls(c, prt))))
+            circuits.append((f"after partner {pn}", lambda prt=prt: cirq.Circuit(cirq.X(q0).with_classical_controls(prt, c))))
+        try:
+            ru = cirq.CircuitOperation(sub, use_repetition_ids=False, repeat_until=c)
+            circuits.append(("repeat_until", lambda: cirq.Circuit(ru, cirq.X(q0).with_classical_controls(c))))
+            circuits.append(("repeat_until + control", lambda: cirq.Circuit(
+                ru.with_classical_controls(partners[1]), cirq.CircuitOperation(sub, use_repetition_ids=False,
+                                                                                repeat_until=partners[1]))))
+        except ValueError:
+            pass        # cirq.CircuitOperation rejects a repeat_until whose keys the sub-circuit does not measure
+        if flag == "rej":
+            try:
+                return _run_circuits(circuits, True)
+            except ValueError:
+                return Res(skipped=True, nontrivial=False)
+        return _run_circuits(circuits, True, find=flag)
+
+    def describe(case):
+        return [list(case), repr(C[case[1]][0])] + ([repr(C[case[2]][0])] if case[0] == "pair" else [])
+
+    return CaseStage("prog_conditions", cases, run, describe=describe)
 
 
 def make_multi_stage(seed):
@@ -2180,7 +2318,7 @@ def make_invalid_device_stage():
 # =============================================================================================
 
 def stages(tier, seed):
-    st = [make_pair_stage(seed), make_decor_stage(seed), make_multi_stage(seed)]
+    st = [make_pair_stage(seed), make_decor_stage(seed), make_multi_stage(seed), make_condition_stage()]
     if tier == "thorough":
         st.append(make_triple_stage(seed))
     st += [make_run_context_stage(seed), make_sweep_v1_stage(seed), make_pack_stage(tier), make_ndarray_stage(), make_results_stage(), make_find_measurements_stage(),
